@@ -46,8 +46,13 @@ class LogExec(Exec):
         w.pipe_capacity = 65536 if K == 0 else (1 if K == 1 else 700 * K)
         got = []
 
+        slow = cfg.get('slow_handler', 0)
+
         class H(logging.Handler):
             def emit(self, record):
+                if slow:
+                    import time
+                    time.sleep(slow)        # a slow parent-side handler (virtual seconds per record)
                 got.append(record.getMessage())
 
         root = simproc.PROCLOG.getLogger()
@@ -128,6 +133,11 @@ class LogH(Harness):
                         d = 2
                     out.append(dict(n=n, K=K, how=how, bound=d, cap=60000 if quick else 600000))
         out.append(dict(n=2, K=0, how='return', access='join', bound=1 if quick else 2, cap=60000))
+        # a slow handler in the parent: the child is still flushing seconds after its result has arrived
+        out.append(dict(n=5, K=1, how='return', slow_handler=1.0, bound=1 if quick else 2, cap=60000))
+        out.append(dict(n=3, K=2, how='raise', slow_handler=1.5, bound=1 if quick else 2, cap=60000))
+        # a burst far beyond anything a bounded queue or buffer in between could hold
+        out.append(dict(n=1500, K=0, how='return', bound=0, cap=10, sched_opts=dict(max_points=400000, max_timer_fires=100000)))
         return out
 
     def new(self, cfg):
